@@ -97,7 +97,7 @@ def gen_readout(rng, i):
 
 def gen_ip(rng, i):
     units, idim = rng.randint(1, 3), rng.randint(1, 2)
-    act = ["tanh", "sigmoid"][i % 2]
+    act = ["tanh", "sigmoid"][(i // 4) % 2]      # i % 4 == 3 for every IP scenario: alternate on the IP index, not on i
     nseq = rng.choice([1, 1, 2, 3])
     lens = [rng.randint(1, 4) for _ in range(nseq)]
     warm = rng.choice([0, 0, 0, 1]) if min(lens) >= 2 else 0
@@ -105,8 +105,8 @@ def gen_ip(rng, i):
             "W": rows(rng, units, units, 4, 2), "Win": rows(rng, units, idim, 4, 2), "bias": [core.dyadic(rng, 4, 2) for _ in range(units)],
             "lr": rng.choice([Fraction(1), Fraction(1), Fraction(1, 2), Fraction(1, 4), Fraction(3, 4)]),
             "mu": (rng.choice([Fraction(1, 8), Fraction(1, 4), Fraction(1, 2), Fraction(3, 4)]) if act == "sigmoid"
-                   else rng.choice([Fraction(0), Fraction(1, 4), Fraction(-1, 4), Fraction(1, 2)])),
-            "sigma": rng.choice([Fraction(1, 4), Fraction(1, 2), Fraction(1), Fraction(2)]),
+                   else rng.choice([Fraction(1, 4), Fraction(-1, 4), Fraction(1, 2), Fraction(-1, 2), Fraction(1, 8), Fraction(0)])),
+            "sigma": rng.choice([Fraction(1, 2), Fraction(1), Fraction(2), Fraction(1, 4)]),
             "eta": rng.choice([Fraction(1, 8), Fraction(1, 16), Fraction(1, 64), Fraction(1, 4)]),
             "epochs": rng.randint(1, 3), "warmup": warm,
             "seqs": [rows(rng, T, idim, 4, 2) for T in lens]}
@@ -238,7 +238,7 @@ def correspondence(ctx):
             keep.append({"scenario": jsonable(c), "impl_error": "non-finite observation: %r" % (e,)})
             continue
         keep.append({"scenario": jsonable(c), "observed": jsonable(o)})
-        tag = c["kind"] if c["kind"] == "ip" else "%s/%s" % (c["cls"], c["kind"])
+        tag = "ip/%s/mu%s0" % (c["activation"], "!=" if c["mu"] != 0 else "=") if c["kind"] == "ip" else "%s/%s" % (c["cls"], c["kind"])
         dist[tag] = dist.get(tag, 0) + 1
         if nontrivial(c, o):
             nt.add(repr(jsonable(c)))
